@@ -72,7 +72,69 @@ CLAIM = dict(
           "it, so state shared between entries handed to the caller (a shared default set) is a violation once the caller "
           "edits one of them. Trees are judged on their documented structure (a child that is an instance of RoutingTree "
           "or of any subclass continues the route, anything else is a vertex). build_routing_tables (deprecated, "
-          "place_and_route/utils.py) is not part of this property's anchors and is not exercised."),
+          "place_and_route/utils.py) is not part of this property's anchors and is not exercised. "
+          "HARDENING (what is validated by which stream; every verdict comes from the Lean oracles TablesSpec / LoadSpec / "
+          "TablesLoadSpec / ReadbackSpec or from the comparison with the Lean model): "
+          "[1 argument kinds] forest stream, option ak (35% of forests) and the decorations (40%): net identifiers as "
+          "pair, int, str containing % and {}, tuples of length 0-3, namedtuple, frozenset, plain object; routes / net_keys "
+          "as dict, OrderedDict, defaultdict, dict subclass; (key, mask) as tuple or namedtuple; keys and masks as int, "
+          "bool, IntEnum member, numpy integer, and (8% of the pools) around 2**31, 2**32, 2**53+1, 2**63, 2**64, 2**100 "
+          "(the conversion treats them as opaque; the toC04 comparison is skipped there because C04's keys are 32-bit); "
+          "chip coordinates shifted by such numbers; the chip argument of RoutingTree as tuple, list, namedtuple; children "
+          "as list / tuple / set (a one-shot iterator is not legal: the documented type is list and traverse() may be "
+          "called again); vertices of every hashable kind incl. bool and tuples of length 0, 1, 3; RoutingTree subclasses. "
+          "Machine streams, option ak (half of the single-load, lossy and session cases; class Caller): an entry's route "
+          "as set, frozenset, list with a duplicate, tuple, one-shot iterator; sources default / {None} / a link / both / "
+          "a list; entries of an application subclass of RoutingTableEntry; keys and masks as bool / IntEnum / numpy "
+          "integer; the table as list, list subclass, tuple (the code takes len(): no generators); routing_tables as "
+          "dict, OrderedDict, defaultdict, dict subclass with (x, y) keys as tuple or namedtuple; x, y, app_id as int, bool, "
+          "IntEnum member (rig never passes numpy integers here); packed records as bytes, bytearray, memoryview; empty "
+          "table, empty dict, empty forest, app id 0, chip (0, 0), key 0, mask 0. Not varied: Routes members stay Routes "
+          "(entries' route sets are documented as sets of Routes); keys beyond 32 bits on the load path are out of the "
+          "documented domain and only compared (struct.error). "
+          "[2 optional parameters] RoutingTree(chip, children): children omitted, None, [], by keyword; "
+          "RoutingTableEntry(route, key, mask, sources): sources default and explicit, positional and keyword; "
+          "routing_tree_to_tables(routes, net_keys) positional and keyword; load_routing_table_entries(entries, x, y, "
+          "app_id), load_routing_tables(routing_tables, app_id), get_routing_table_entries(x, y), "
+          "clear_routing_table_entries(x, y, app_id): positional, keyword, from the controller's context (with mc(x=, y=, "
+          "app_id=)), mixed, and a context naming another chip that the explicit arguments / the dict override; "
+          "unpack_routing_table_entry(packed) and traverse() have nothing optional. "
+          "[3 scale, one case each per run, CPU limit raised] a chain of 1200 (thorough 3000) hops with a second net "
+          "joining half-way, sent to Lean in a flat form because the JSON encoder cannot nest that deep; a node with 600 "
+          "(5000) children plus six subtrees; 300 (2000) nets with one key crossing one chip; a table of 1025 entries "
+          "(thorough also 65536 and 65537: the count field of the load command has 16 bits) - every valid allocator refuses "
+          "it, the call must raise the router error and send nothing else; one load_routing_tables call over 150 (256) "
+          "chips of a 16x16 machine. Nothing in scope recurses (traverse is an iterative breadth-first search); app ids "
+          "are documented as 0..255 and 256+ is not fed. "
+          "[4 histories] session stream (two controllers used alternately, same call repeated, twins of a table in both "
+          "orders via in-place edits) and history stream (fhist: the same conversion repeated; twin forests differing in "
+          "one route / key / node class / child / enum kind / argument kinds, in both orders; two forests used "
+          "alternately); rig's modules are forgotten and imported afresh at the start of every session and history, so "
+          "module-level, class-level and default-argument state starts clean and the replay of a history reproduces. "
+          "[5 caller keeps and edits] (a) passed objects edited in place and passed again: table lists (sessions), the "
+          "routing_tables dict object (sessions: chips added, rebound, deleted), the trees' children lists, the routes and "
+          "net_keys dicts (history stream: add / delete a child anywhere, change a net's key, delete a net); (b) returned "
+          "objects edited: read-back lists and their entries' sources, the dict / lists / entries returned by "
+          "routing_tree_to_tables; (c) kept results re-read at the end of the session / history: a read-back list or a "
+          "tables dict that changed after it was returned without the caller touching it is the finding "
+          "result-changed-after-return; (d) traverse() generators advanced alternately on one or two trees, interleaved "
+          "with conversions, resumed later or abandoned half-way; what they yielded is compared with the Lean model's "
+          "traversal (theorem traverse_exact), a deviation is a broken correspondence. "
+          "[6 faults then continued use] lossy stream (alloc_rtr request / reply lost) and session steps with one network "
+          "fault at the n-th datagram of the load: request lost, reply lost after execution, a retryable return code, a "
+          "fatal return code, the datagram and all its retransmissions lost; faults the protocol hides must leave the "
+          "load exact (judged as usual), a call that fails with the connection's error is not judged itself (the property "
+          "does not say what it leaves behind; the simulator is still checked against the specification) and the same "
+          "controllers go on being used: every later step is judged from the routers as they then are. "
+          "[7 configuration] per case: scp_data_length 16..512, window 1..8, n_tries 2/5, timeout 0.5/1/4 ticks, machine "
+          "chips anywhere in the 256x256 coordinate space; per chip: sv.sdram_sys, sv.rtr_copy, router content, allocation "
+          "policy. Not varied: the layout of the sv struct and the SCP command numbers - they are data of the repository, "
+          "translated into the Lean model on every run (a caller-supplied struct layout is not modelled); core counts, "
+          "link states and version strings are not read by the functions in scope. "
+          "[8 non-termination] every call of the implementation runs under common.cpu_limit: 2 s for a conversion, a "
+          "traversal step or an unpack, 30 s for a controller call, 120-300 s for the scale cases, a tenth of that after "
+          "three hangs; a call that does not return is the finding did-not-return (the model's runs end: tables_total, "
+          "load_exact, load_tables_spec, readback_exact); a session stops at a hang."),
     technique="Lean 4 theorems over a hand-written model + differential correspondence + Lean spec as oracle")
 
 THEOREMS = ["routes_enum_documented", "traverse_exact", "tables_exact", "multisource_iff", "tables_total",
@@ -116,7 +178,10 @@ RULE = ("pure cases = forests of 1-6 nets on a 4x4 torus: random branching trees
         "has one, so that every reported case is self-contained; non-trivial = (pure) at "
         "least two nodes share chip+key+mask, (machine) a table of >= 2 entries was loaded or an allocation failed with a "
         "non-empty router or a block was leaked by a retransmitted allocation, (session) a list object that had been "
-        "loaded before was edited and loaded again; distinct = distinct canonical JSON of the case")
+        "loaded before was edited and loaded again; argument kinds / calling conventions (option ak), big numbers, "
+        "histories of conversions with in-place edits, twins and lazily consumed traversals (kind fhist: non-trivial when "
+        "more than one conversion or a traversal took place), network faults inside sessions, scale cases and the CPU "
+        "limit are described item by item in the claim's note (HARDENING); distinct = distinct canonical JSON of the case")
 
 LINK_VEC = simmachine.LINK_VEC
 W = H = 4
@@ -156,12 +221,13 @@ def gen_tree(rng, chip, depth, budget, shape):
     return {"c": list(chip), "k": kids}
 
 
-def tree_nodes(t, out=None):
-    out = [] if out is None else out
-    out.append(t)
-    for r, s in t["k"]:
-        if s is not None:
-            tree_nodes(s, out)
+def tree_nodes(t):
+    """all nodes, parents before children, children in order (iterative: trees may be thousands of levels deep)"""
+    out, stack = [], [t]
+    while stack:
+        n = stack.pop()
+        out.append(n)
+        stack.extend(s for r, s in reversed(n["k"]) if s is not None)
     return out
 
 
@@ -169,10 +235,17 @@ def copy_tree(t):
     return {"c": list(t["c"]), "k": [[r, None if s is None else copy_tree(s)] for r, s in t["k"]]}
 
 
+BIG_INTS = [2 ** 31, 2 ** 32, 2 ** 53 + 1, 2 ** 63, 2 ** 64, 2 ** 100]
+NET_ID_KINDS = ["pair", "int", "str", "tuple", "named", "frozenset", "object"]
+
+
 def gen_forest(rng):
     n_nets = rng.choice([1, 2, 2, 3, 3, 4, 6])
     pool = [(rng.choice([0, 1, 0xffff0000, 0xffffffff, rng.randrange(1 << 32)]),
              rng.choice([0, 0xffffffff, 0xffff0000, rng.randrange(1 << 32)])) for _ in range(rng.choice([1, 2, 3, 4]))]
+    if rng.random() < 0.08:
+        # keys and masks are opaque to the conversion (unbounded): values around and beyond the 32/53/64-bit edges
+        pool = [(max(0, rng.choice(BIG_INTS + [k]) + rng.choice([0, 0, -1, 1])), rng.choice(BIG_INTS + [m])) for k, m in pool]
     nets = []
     for i in range(n_nets):
         key, mask = rng.choice(pool)
@@ -222,6 +295,20 @@ def gen_forest(rng):
         sub = {"c": [rng.randrange(FW), rng.randrange(FH)], "k": [[7, None]]}
         victim["k"].append([None if rng.random() < 0.5 else 6 + rng.randrange(18), sub])
     case = {"kind": "forest", "nets": nets, "links_enum": rng.random() < 0.3}
+    if rng.random() < 0.01:
+        case["nets"] = nets = []                # nothing to convert: empty dicts in, empty dict out
+    if rng.random() < 0.04:
+        # chip coordinates are opaque too: the whole forest far away from the origin
+        dx, dy = rng.choice(BIG_INTS + [0]), rng.choice(BIG_INTS + [255])
+        for n in nets:
+            for t in tree_nodes(n["tree"]):
+                t["c"] = [t["c"][0] + dx, t["c"][1] + dy]
+    if rng.random() < 0.35:
+        # argument kinds and calling convention (see build_forest)
+        case["ak"] = {"ids": rng.choice(NET_ID_KINDS), "routes": rng.choice(["dict", "ordered", "subclass"]),
+                      "net_keys": rng.choice(["dict", "ordered", "default", "subclass"]),
+                      "km": rng.choice(["tuple", "named"]), "num": rng.choice(["int", "intlike"]),
+                      "conv": rng.choice(["pos", "kw"])}
     if rng.random() < 0.4:
         # the same trees in other legal clothes (the Lean side reads only "c" and "k")
         # (children in a set are visited in an arbitrary order; in a malformed forest the order decides which of
@@ -236,7 +323,7 @@ def gen_forest(rng):
     return case
 
 
-VERTEX_KINDS = ["obj", "obj", "str", "int", "pair", "xy", "ntuple", "frozenset", "faketree"]
+VERTEX_KINDS = ["obj", "obj", "str", "int", "pair", "xy", "ntuple", "frozenset", "faketree", "t0", "t1", "t3", "bool"]
 
 
 def decorate(rng, t, ordered=False):
@@ -248,10 +335,12 @@ def decorate(rng, t, ordered=False):
     t["f"] = rng.choice(["list", "list", "tuple", "tuple" if ordered else "set"])
     t["p"] = rng.choice(["tuple", "tuple", "named"])
     t["v"] = [rng.choice(VERTEX_KINDS) for _ in t["k"]]
+    t["cf"] = rng.choice(["tuple", "tuple", "list", "named"])          # the chip argument: any (x, y) pair
+    t["nk"] = rng.choice(["empty", "omit", "none", "kw"])               # a node without children: [], omitted, None
 
 
 def wellformed(t):
-    return all(s is None or (r is not None and r < 6 and wellformed(s)) for r, s in t["k"])
+    return all(s is None or (r is not None and r < 6) for n in tree_nodes(t) for r, s in n["k"])
 
 
 class Vertex(object):
@@ -267,6 +356,9 @@ class RoutingTree(object):
 
 ChildPair = collections.namedtuple("ChildPair", "route obj")
 VertexTuple = collections.namedtuple("VertexTuple", "route obj")
+ChipXY = collections.namedtuple("ChipXY", "x y")
+KeyMask = collections.namedtuple("KeyMask", "key mask")
+NetId = collections.namedtuple("NetId", "name index")
 _tree_classes = {}
 
 
@@ -295,7 +387,15 @@ def tree_classes():
 def make_vertex(kind, chip, i):
     from rig.routing_table import Routes
     if kind == "str":
-        return "vertex %d at %r" % (i, chip)
+        return "vertex %d at %r" % (i, chip) + ": 100% {} {0} %s %(x)d"
+    if kind == "t0":
+        return ()
+    if kind == "t1":
+        return (Vertex(),)
+    if kind == "t3":
+        return (Routes(i % 24), Vertex(), None)
+    if kind == "bool":
+        return i % 2 == 0
     if kind == "int":
         return 1000 * i + chip[0]
     if kind == "pair":
@@ -327,7 +427,18 @@ def build_tree(t, use_links):
         kids.append(ChildPair(rr, child) if t.get("p") == "named" else (rr, child))
     form = t.get("f", "list")
     kids = tuple(kids) if form == "tuple" else set(kids) if form == "set" else kids
-    return tree_classes()[t.get("s", 0)](tuple(t["c"]), kids)
+    cf = t.get("cf", "tuple")
+    chip = list(t["c"]) if cf == "list" else ChipXY(*t["c"]) if cf == "named" else tuple(t["c"])
+    cls = tree_classes()[t.get("s", 0)]
+    if not t["k"] and form == "list":
+        nk = t.get("nk", "empty")
+        if nk == "omit":
+            return cls(chip)
+        if nk == "none":
+            return cls(chip, None)
+        if nk == "kw":
+            return cls(chip=chip, children=[])
+    return cls(chip, kids)
 
 
 def RoutingTableEntryExplicit(e):
@@ -372,27 +483,126 @@ def canon_entry(e):
             sorted(-1 if s is None else int(s) for s in e.sources)]
 
 
-def impl_tables(case):
-    from rig.routing_table import routing_tree_to_tables, MultisourceRouteError
-    routes, net_keys = {}, {}
-    for i, n in enumerate(case["nets"]):
-        net = ("net", i)
-        routes[net] = build_tree(n["tree"], case.get("links_enum", False))
-        net_keys[net] = (n["key"], n["mask"])
-    if case.get("reconvert") is not None:
-        try:
-            edit_tables(routing_tree_to_tables(routes, net_keys), case["reconvert"])
-        except (MultisourceRouteError, AssertionError, ValueError):
-            pass
+_HANGS = [0]
+
+
+def limited(seconds, f):
+    """one call of the implementation under a CPU-time limit (about 100x what such a call needs; a tenth of it once
+    three calls of this run did not return); common.ImplHang is raised when it does not return in time"""
+    from harness import common
+    with common.cpu_limit(seconds if _HANGS[0] < 3 else max(0.5, seconds / 10.0)):
+        return f()
+
+
+def fresh_rig():
+    """forget rig's modules: the next import executes them again, so module-level, class-level and default-argument
+    state starts afresh - a history then replays on its own"""
+    import sys
+    for k in [k for k in sys.modules if k == "rig" or k.startswith("rig.")]:
+        del sys.modules[k]
+    _tree_classes.clear()
+
+
+def int_like(v, i):
+    """the same number as another legal kind of int: bool, IntEnum member, numpy integer"""
+    if v in (0, 1) and i % 3 == 0:
+        return bool(v)
+    if i % 2 == 0:
+        import enum
+        return enum.IntEnum("Number", {"value_%d" % i: v})["value_%d" % i]
     try:
-        tables = routing_tree_to_tables(routes, net_keys)
+        import numpy
+        if v < 2 ** 63:
+            return numpy.int64(v)
+        if v < 2 ** 64:
+            return numpy.uint64(v)
+    except ImportError:
+        pass
+    return v
+
+
+def net_id(kind, i):
+    if kind == "int":
+        return i
+    if kind == "str":
+        return "net %d" % i + ": 100% {} {0} %s %(x)d"
+    if kind == "tuple":
+        return tuple(range(i % 4)) + ((i,) if i >= 4 else ())      # lengths 0..3
+    if kind == "named":
+        return NetId("net", i)
+    if kind == "frozenset":
+        return frozenset(["net", i])
+    if kind == "object":
+        return Vertex()
+    return ("net", i)
+
+
+class DictSubclass(dict):
+    pass
+
+
+def make_dict(kind):
+    if kind == "ordered":
+        return collections.OrderedDict()
+    if kind == "default":
+        return collections.defaultdict(lambda: None)
+    if kind == "subclass":
+        return DictSubclass()
+    return {}
+
+
+def build_forest(case):
+    """the live arguments of routing_tree_to_tables for a forest case: (routes, net_keys, net ids in order)"""
+    ak = case.get("ak") or {}
+    routes, net_keys, ids = make_dict(ak.get("routes")), make_dict(ak.get("net_keys")), []
+    for i, n in enumerate(case["nets"]):
+        net = net_id(ak.get("ids"), i)
+        ids.append(net)
+        routes[net] = build_tree(n["tree"], case.get("links_enum", False))
+        net_keys[net] = make_km(ak, n["key"], n["mask"], i)
+    return routes, net_keys, ids
+
+
+def make_km(ak, key, mask, i):
+    if ak.get("num") == "intlike":
+        key, mask = int_like(key, i), int_like(mask, i + 1)
+    return KeyMask(key, mask) if ak.get("km") == "named" else (key, mask)
+
+
+def convert(routes, net_keys, case, seconds=2):
+    """one call of routing_tree_to_tables: (canonical outcome, the dict it returned or None)"""
+    from harness import common
+    from rig.routing_table import routing_tree_to_tables, MultisourceRouteError
+    kw = (case.get("ak") or {}).get("conv") == "kw"
+    try:
+        tables = limited(seconds, (lambda: routing_tree_to_tables(net_keys=net_keys, routes=routes)) if kw else
+                         (lambda: routing_tree_to_tables(routes, net_keys)))
+    except common.ImplHang as e:
+        _HANGS[0] += 1
+        return {"hang": str(e)}, None
     except MultisourceRouteError as e:
-        return {"err": ["multisource", e.key, e.mask, [e.x, e.y]]}
+        return {"err": ["multisource", int(e.key), int(e.mask), [int(e.x), int(e.y)]]}, None
     except AssertionError:
-        return {"err": ["assertion"]}
+        return {"err": ["assertion"]}, None
     except ValueError:
-        return {"err": ["valueError"]}
-    return {"ok": [[list(c), [canon_entry(e) for e in es]] for c, es in tables.items()]}
+        return {"err": ["valueError"]}, None
+    except (RecursionError, OverflowError, MemoryError, TypeError, KeyError, AttributeError, IndexError) as e:
+        return {"err": ["undocumented", type(e).__name__, str(e)[:120]]}, None
+    return canon_tables(tables), tables
+
+
+def canon_tables(tables):
+    return {"ok": [[[int(c[0]), int(c[1])], [canon_entry(e) for e in es]] for c, es in tables.items()]}
+
+
+def impl_tables(case, seconds=2):
+    from rig.routing_table import MultisourceRouteError
+    routes, net_keys, _ = build_forest(case)
+    if case.get("reconvert") is not None:
+        first, tables = convert(routes, net_keys, case, seconds)
+        if tables is not None:
+            edit_tables(tables, case["reconvert"])
+    return convert(routes, net_keys, case, seconds)[0]
 
 
 def norm_tables(res):
@@ -415,60 +625,427 @@ def shares(case):
     return False
 
 
-def eval_forests(ctx, cases):
+def forest_reqs(fc, impl):
+    big = any(n["key"] >= 1 << 32 or n["mask"] >= 1 << 32 for n in fc["nets"])
+    return [{"suite": "c10", "op": "tables", "nets": fc["nets"]},
+            {"suite": "c10", "op": "tables_spec", "nets": fc["nets"], "result": impl if "hang" not in impl else {"err": ["hang"]}},
+            {"suite": "c10", "op": "to_c04", "tables": [] if big else impl.get("ok", [])}]
+
+
+def judge_forest(ctx, case, fc, impl, out3, label="", count=True):
+    """judge one conversion: `fc` = the forest as it was at the call (nets + options), `case` = what is reported
+    (the forest itself or the whole history it belongs to)"""
     from harness import c04
-    reqs = []
+    model, spec, conv = out3
+    ctx.traces += 1
+    wf = all(wellformed(n["tree"]) for n in fc["nets"])
+    if "hang" in impl:
+        # the model always returns (tables_total / tables_exact): not returning is a failure of the conversion
+        ctx.violation("did-not-return", label + "routing_tree_to_tables did not return: " + impl["hang"], case)
+        if count:
+            ctx.case(case, False)
+        return False
+    # cross-model: Lean `toC04` of the implementation's entries = the encoding C04's harness feeds its model
+    big = any(n["key"] >= 1 << 32 or n["mask"] >= 1 << 32 for n in fc["nets"])
+    want = [] if big else [[ch, [[c04.bits_of(r), k, m, c04.bits_of(None if x < 0 else x for x in src)] for r, k, m, src in es]]
+                           for ch, es in impl.get("ok", [])]
+    if conv != want:
+        ctx.mismatch("c10.to_c04", "toC04 of the tables differs from the C04 encoding: %r / %r" % (
+            str(conv)[:200], str(want)[:200]), case)
+    ctx.tag("forest_" + ("ok" if "ok" in impl else impl["err"][0]) + ("" if wf else "_malformed"))
+    if "ok" in impl and shares(fc):
+        ctx.tag("forest_ok_with_merge")
+    nodes = [t for n in fc["nets"] for t in tree_nodes(n["tree"])]
+    if any("s" in t for t in nodes):
+        ctx.tag("forest_decorated")
+        if any(t.get("s") for n in fc["nets"] for t in tree_nodes(n["tree"])[1:]):
+            ctx.tag("forest_subclass_below_root")
+        if any(t.get("s") for n in fc["nets"] for t in tree_nodes(n["tree"])[:1]):
+            ctx.tag("forest_subclass_at_root")
+        if any(t.get("f") == "set" for t in nodes):
+            ctx.tag("forest_children_in_set")
+        if any(not t["k"] and t.get("nk") in ("omit", "none", "kw") for t in nodes):
+            ctx.tag("forest_children_argument_omitted_or_None")
+    if fc.get("reconvert") is not None:
+        ctx.tag("forest_converted_again_after_caller_edits")
+    if fc.get("ak"):
+        ak = fc["ak"]
+        ctx.tag("forest_ak_ids_" + ak["ids"], "forest_ak_call_" + ak["conv"], "forest_ak_numbers_" + ak["num"],
+                "forest_ak_routes_" + ak["routes"], "forest_ak_net_keys_" + ak["net_keys"])
+    if big:
+        ctx.tag("forest_big_key_or_mask")
+    if any(t["c"][0] >= 1 << 31 or t["c"][1] >= 1 << 31 for t in nodes):
+        ctx.tag("forest_big_chip_coordinates")
+    if not fc["nets"]:
+        ctx.tag("forest_empty")
+    if norm_tables(impl) != norm_tables(model):
+        ctx.mismatch("c10.tables", label + "impl=%r model=%r" % (str(impl)[:300], str(model)[:300]), case)
+    elif impl != model:
+        ctx.tag("forest_order_differs_from_model")
+    if wf:
+        if not spec["holds"]:
+            if "ok" in impl:
+                what = ("tables are not exactly what the trees demand (conflict among trees: %s): %s"
+                        % (spec["conflict"], str(impl)[:300]))
+                key = "tables-not-exact" if not spec["conflict"] else "multisource-not-reported"
+            elif impl["err"][0] == "multisource":
+                what = "MultisourceRouteError%r but no two nodes there fork differently" % (impl["err"][1:],)
+                key = "multisource-spurious"
+            else:
+                what = "undocumented error %r on well-formed trees" % (impl["err"],)
+                key = "unexpected-error"
+            ctx.violation(key, label + what, case)
+        if spec["conflict"]:
+            ctx.tag("forest_conflict")
+    nontrivial = wf and shares(fc)
+    if count:
+        ctx.case(case, nontrivial)
+    return nontrivial
+
+
+def expand_scale_forest(case):
+    """the forest of a scale case (built from a few numbers; deep chains cannot be written as nested JSON)"""
+    n, shape = case["n"], case["shape"]
+    if shape == "chain":
+        # one chain of n hops along the x axis, a core at every hop, a second net joining half-way
+        t = {"c": [n, 3], "k": [[9, None]]}
+        for i in range(n - 1, -1, -1):
+            t = {"c": [i, 3], "k": [[6 + i % 18, None], [0, t]] if i % 2 else [[0, t], [None, None]]}
+            if i == n // 2:
+                half = t
+        nets = [{"key": 0xdead0000, "mask": 0xffff0000, "tree": t},
+                {"key": 0xbeef0000, "mask": 0xffff0000, "tree": {"c": [n // 2, 2], "k": [[2, half]]}}]
+    elif shape == "star":
+        # one node with n children (all 24 routes and None, many times over) and six subtrees
+        kids = [[None if i % 25 == 24 else i % 25, None] for i in range(n)]
+        kids += [[l, {"c": [10 + LINK_VEC[l][0], 10 + LINK_VEC[l][1]], "k": [[6 + l, None]] * 40}] for l in range(6)]
+        nets = [{"key": 1, "mask": 0xffffffff, "tree": {"c": [10, 10], "k": kids}}]
+    else:
+        # n nets with the same key and mask, all crossing chip (5, 5) from six directions and leaving it the same way
+        nets = []
+        for i in range(n):
+            l = i % 6
+            dx, dy = LINK_VEC[l]
+            nets.append({"key": 0x42, "mask": 0xff, "tree": {"c": [5 - dx, 5 - dy], "k": [
+                [l, {"c": [5, 5], "k": [[7, None], [8, None]] if i % 2 else [[8, None], [7, None], [8, None]]}]]}})
+    return {"kind": "forest", "nets": nets, "links_enum": case.get("links_enum", False), "ak": case.get("ak")}
+
+
+def lean_tree(t):
+    """a tree for the Lean side: deep chains in the flat form"""
+    items, cur = [], t
+    while True:
+        subs = [(r, s) for r, s in cur["k"] if s is not None]
+        if len(subs) > 1 or (subs and cur["k"][-1][1] is None and False):
+            return t
+        leaves = [[r, None] for r, s in cur["k"] if s is None]
+        if not subs:
+            items.append({"c": cur["c"], "k": leaves})
+            break
+        # (the flat form puts the subtree after the leaves: the order of children is not observable in the model's
+        # result up to the order of entries, which the comparison ignores)
+        items.append({"c": cur["c"], "k": leaves, "r": subs[0][0]})
+        cur = subs[0][1]
+    return {"chain": items} if len(items) > 200 else t
+
+
+def eval_scale_forests(ctx, cases):
+    import sys
+    old = sys.getrecursionlimit()
+    sys.setrecursionlimit(200000)
+    try:
+        for c in cases:
+            fc = expand_scale_forest(c)
+            impl = impl_tables(fc, seconds=120)
+            lean_fc = dict(fc, nets=[dict(n, tree=lean_tree(n["tree"])) for n in fc["nets"]])
+            out = ctx.lean(forest_reqs(lean_fc, impl))
+            ctx.tag("scale_forest_%s_%d_%s" % (c["shape"], c["n"], "ok" if "ok" in impl else "hang" if "hang" in impl
+                                               else impl["err"][0]))
+            judge_forest(ctx, c, fc, impl, out, label="scale (%s, %d): " % (c["shape"], c["n"]))
+    finally:
+        sys.setrecursionlimit(old)
+
+
+def eval_forests(ctx, cases, seconds=2):
+    reqs, impls = [], []
     for c in cases:
-        c["_impl"] = impl_tables(c)
-        reqs.append({"suite": "c10", "op": "tables", "nets": c["nets"]})
-        reqs.append({"suite": "c10", "op": "tables_spec", "nets": c["nets"], "result": c["_impl"]})
-        reqs.append({"suite": "c10", "op": "to_c04", "tables": c["_impl"].get("ok", [])})
+        impls.append(impl_tables(c, seconds))
+        reqs += forest_reqs(c, impls[-1])
     out = ctx.lean(reqs)
     for i, c in enumerate(cases):
-        impl = c.pop("_impl")
-        model, spec, conv = out[3 * i], out[3 * i + 1], out[3 * i + 2]
-        ctx.traces += 1
-        # cross-model: Lean `toC04` of the implementation's entries = the encoding C04's harness feeds its model
-        want = [[ch, [[c04.bits_of(r), k, m, c04.bits_of(None if x < 0 else x for x in src)] for r, k, m, src in es]]
-                for ch, es in impl.get("ok", [])]
-        if conv != want:
-            ctx.mismatch("c10.to_c04", "toC04 of the tables differs from the C04 encoding: %r / %r" % (
-                str(conv)[:200], str(want)[:200]), c)
-        wf = all(wellformed(n["tree"]) for n in c["nets"])
-        ctx.tag("forest_" + ("ok" if "ok" in impl else impl["err"][0]) + ("" if wf else "_malformed"))
-        if "ok" in impl and shares(c):
-            ctx.tag("forest_ok_with_merge")
-        nodes = [t for n in c["nets"] for t in tree_nodes(n["tree"])]
-        if any("s" in t for t in nodes):
-            ctx.tag("forest_decorated")
-            if any(t.get("s") for n in c["nets"] for r, sub in [(None, n["tree"])] for t in tree_nodes(sub)[1:]):
-                ctx.tag("forest_subclass_below_root")
-            if any(t.get("s") for n in c["nets"] for t in tree_nodes(n["tree"])[:1]):
-                ctx.tag("forest_subclass_at_root")
-            if any(t.get("f") == "set" for t in nodes):
-                ctx.tag("forest_children_in_set")
-        if c.get("reconvert") is not None:
-            ctx.tag("forest_converted_again_after_caller_edits")
-        if norm_tables(impl) != norm_tables(model):
-            ctx.mismatch("c10.tables", "impl=%r model=%r" % (str(impl)[:300], str(model)[:300]), c)
-        elif impl != model:
-            ctx.tag("forest_order_differs_from_model")
-        if wf:
-            if not spec["holds"]:
-                if "ok" in impl:
-                    what = ("tables are not exactly what the trees demand (conflict among trees: %s): %s"
-                            % (spec["conflict"], str(impl)[:300]))
-                    key = "tables-not-exact" if not spec["conflict"] else "multisource-not-reported"
-                elif impl["err"][0] == "multisource":
-                    what = "MultisourceRouteError%r but no two nodes there fork differently" % (impl["err"][1:],)
-                    key = "multisource-spurious"
+        judge_forest(ctx, c, c, impls[i], out[3 * i:3 * i + 3])
+
+
+# --------------------------------------------------------------------------------------------
+# histories of conversions and traversals in one process, on live objects the caller keeps and edits
+# --------------------------------------------------------------------------------------------
+#
+# {"kind": "fhist", "forests": [forest, ...], "steps": [step, ...]}; the forests' trees, routes dicts and net_keys
+# dicts are built ONCE (after rig was imported afresh) and live through the history.  Steps:
+#   ["conv", f]            routing_tree_to_tables on forest f as it is now; judged; the returned dict is kept
+#   ["edit", f, op]        the caller edits, in place, what it passes: op =
+#                            {"op": "add_kid", "net": i, "path": [child index, ...], "kid": [route, None]}
+#                            {"op": "del_kid", "net": i, "path": [...], "idx": j}
+#                            {"op": "set_km", "net": i, "key": k, "mask": m}     (net_keys[net] = ...)
+#                            {"op": "del_net", "net": i}                          (del routes[net]; del net_keys[net])
+#   ["trav", f, i, n]      a new traverse() generator on net i's tree, advanced n items and left suspended
+#   ["resume", g, n]       generator number g advanced n more items (-1: to the end)
+# At the end every kept conversion result is read again: it must be what it was when it was returned; every traversal
+# (complete or abandoned) is compared with the Lean model's traversal of the tree.
+
+def forest_edit_json(fc, op):
+    n = fc["nets"][op["net"]]
+    if op["op"] == "set_km":
+        n["key"], n["mask"] = op["key"], op["mask"]
+    elif op["op"] == "del_net":
+        n["deleted"] = True
+    else:
+        t = n["tree"]
+        for j in op["path"]:
+            t = t["k"][j][1]
+        if op["op"] == "add_kid":
+            t["k"].append(list(op["kid"]))
+            if "v" in t:
+                t["v"].append("obj")
+        else:
+            del t["k"][op["idx"]]
+            if "v" in t:
+                del t["v"][op["idx"]]
+
+
+def forest_edit_live(live, fc_before, op):
+    from rig.routing_table import Routes
+    routes, net_keys, ids = live
+    net = ids[op["net"]]
+    if op["op"] == "set_km":
+        net_keys[net] = make_km(fc_before.get("ak") or {}, op["key"], op["mask"], op["net"])
+    elif op["op"] == "del_net":
+        del routes[net]
+        del net_keys[net]
+    else:
+        t = routes[net]
+        for j in op["path"]:
+            t = t.children[j][1]
+        if op["op"] == "add_kid":
+            r = op["kid"][0]
+            t.children.append((None if r is None else Routes(r), Vertex()))
+        else:
+            del t.children[op["idx"]]
+
+
+def current_forest(fc):
+    """the forest as the conversion sees it now (deleted nets gone)"""
+    out = {k: v for k, v in fc.items() if k != "nets"}
+    out["nets"] = [n for n in fc["nets"] if not n.get("deleted")]
+    return out
+
+
+def listify(fc):
+    for n in fc["nets"]:
+        for t in tree_nodes(n["tree"]):
+            if "f" in t:
+                t["f"] = "list"
+                t["p"] = "tuple"
+                t["nk"] = "empty"
+    return fc
+
+
+def random_path(rng, tree):
+    """path (child indices) to a random node reached through subtrees only"""
+    path, t = [], tree
+    while True:
+        subs = [j for j, (r, s) in enumerate(t["k"]) if s is not None]
+        if not subs or rng.random() < 0.4:
+            return path, t
+        j = rng.choice(subs)
+        path.append(j)
+        t = t["k"][j][1]
+
+
+def gen_fhist(rng):
+    import copy
+    kind = rng.choice(["repeat", "twins", "twins", "inplace", "inplace", "inplace", "lazy", "lazy"])
+    f0 = gen_forest(rng)
+    while not f0["nets"] or not all(wellformed(n["tree"]) for n in f0["nets"]):
+        f0 = gen_forest(rng)
+    f0.pop("reconvert", None)
+    forests, steps = [f0], []
+    if kind == "repeat":
+        steps = [["conv", 0]] * rng.choice([2, 3])
+    elif kind == "twins":
+        f1 = copy.deepcopy(f0)
+        n = rng.choice(f1["nets"])
+        how = rng.choice(["route", "key", "class", "drop", "enum", "ak"])
+        node = rng.choice(tree_nodes(n["tree"]))
+        if how == "route" and node["k"]:
+            kid = rng.choice(node["k"])
+            if kid[1] is None:
+                kid[0] = rng.choice([None, rng.randrange(24)])
+            else:
+                how = "key"
+        if how == "key":
+            n["key"] = n["key"] ^ (1 << rng.randrange(32))
+        elif how == "class":
+            node["s"] = (node.get("s", 0) + 1) % 4
+        elif how == "drop" and node["k"]:
+            j = rng.randrange(len(node["k"]))
+            del node["k"][j]
+            if "v" in node:
+                del node["v"][j]
+        elif how == "enum":
+            f1["links_enum"] = not f1.get("links_enum")
+        elif how == "ak":
+            f1["ak"] = None if f1.get("ak") else {"ids": "str", "routes": "ordered", "net_keys": "default", "km": "named",
+                                                  "num": "intlike", "conv": "kw"}
+        forests.append(f1)
+        steps = rng.choice([[["conv", 0], ["conv", 1]], [["conv", 1], ["conv", 0]],
+                            [["conv", 0], ["conv", 1], ["conv", 0]], [["conv", 1], ["conv", 0], ["conv", 1]]])
+    elif kind == "inplace":
+        listify(f0)
+        work = copy.deepcopy(f0)
+        steps.append(["conv", 0])
+        for _ in range(rng.choice([1, 2, 3])):
+            cur = current_forest(work)
+            alive = [i for i, n in enumerate(work["nets"]) if not n.get("deleted")]
+            i = rng.choice(alive)
+            what = rng.choice(["add_kid", "add_kid", "del_kid", "set_km", "del_net" if len(alive) > 1 else "add_kid"])
+            path, node = random_path(rng, work["nets"][i]["tree"])
+            if what == "del_kid":
+                leaves = [j for j, (r, s) in enumerate(node["k"]) if s is None]
+                if leaves:
+                    op = {"op": "del_kid", "net": i, "path": path, "idx": rng.choice(leaves)}
                 else:
-                    what = "undocumented error %r on well-formed trees" % (impl["err"],)
-                    key = "unexpected-error"
-                ctx.violation(key, what, c)
-            if spec["conflict"]:
-                ctx.tag("forest_conflict")
-        ctx.case(c, wf and shares(c))
+                    what = "add_kid"
+            if what == "add_kid":
+                op = {"op": "add_kid", "net": i, "path": path, "kid": [rng.choice([None, rng.randrange(24), 6 + rng.randrange(18)]), None]}
+            elif what == "set_km":
+                other = rng.choice(work["nets"])
+                op = {"op": "set_km", "net": i, "key": other["key"] if rng.random() < 0.6 else rng.randrange(1 << 32),
+                      "mask": other["mask"]}
+            elif what == "del_net":
+                op = {"op": "del_net", "net": i}
+            forest_edit_json(work, op)
+            steps.append(["edit", 0, op])
+            steps.append(["conv", 0])
+            if rng.random() < 0.3:
+                steps.append(["conv", 0])
+    else:
+        listify(f0)
+        if rng.random() < 0.5:
+            forests.append(listify(gen_forest_wf(rng)))
+        gens = []
+        for _ in range(rng.choice([2, 3, 4])):
+            f = rng.randrange(len(forests))
+            steps.append(["trav", f, rng.randrange(len(forests[f]["nets"])), rng.choice([0, 1, 1, 2, 3])])
+            gens.append(len(gens))
+            if rng.random() < 0.5:
+                steps.append(["conv", rng.randrange(len(forests))])
+            if rng.random() < 0.6:
+                steps.append(["resume", rng.choice(gens), rng.choice([1, 2, -1])])
+        for g in gens:
+            if rng.random() < 0.6:           # the others are abandoned half-way
+                steps.append(["resume", g, -1])
+    return {"kind": "fhist", "forests": forests, "steps": [list(x) for x in steps]}
+
+
+def gen_forest_wf(rng):
+    f = gen_forest(rng)
+    while not f["nets"] or not all(wellformed(n["tree"]) for n in f["nets"]):
+        f = gen_forest(rng)
+    f.pop("reconvert", None)
+    return f
+
+
+def canon_visit(v):
+    d, chip, outs = v
+    return [None if d is None else int(d), [int(chip[0]), int(chip[1])], sorted(int(r) for r in outs)]
+
+
+def run_fhist(case):
+    """returns (conversions [(forest at the call, outcome)], changed kept results, traversals [(tree, visits, done)])"""
+    import copy
+    from harness import common
+    fresh_rig()
+    work = [copy.deepcopy(f) for f in case["forests"]]
+    live = [build_forest(f) for f in work]
+    convs, kept, gens = [], [], []
+    for step in case["steps"]:
+        if step[0] == "conv":
+            f = step[1]
+            fc = current_forest(copy.deepcopy(work[f]))
+            impl, tables = convert(live[f][0], live[f][1], fc)
+            convs.append((fc, impl))
+            if tables is not None:
+                kept.append((len(convs) - 1, tables, impl))
+        elif step[0] == "edit":
+            forest_edit_live(live[step[1]], work[step[1]], step[2])
+            forest_edit_json(work[step[1]], step[2])
+        elif step[0] == "trav":
+            f, i, n = step[1], step[2], step[3]
+            tree = live[f][0][live[f][2][i]]
+            gens.append({"tree": copy.deepcopy(work[f]["nets"][i]["tree"]), "gen": tree.traverse(), "visits": [],
+                         "done": False, "hang": None})
+            step = ["resume", len(gens) - 1, n]
+        if step[0] == "resume":
+            g = gens[step[1]]
+            n = step[2]
+            try:
+                while not g["done"] and n != 0:
+                    try:
+                        g["visits"].append(canon_visit(limited(2, lambda: next(g["gen"]))))
+                    except StopIteration:
+                        g["done"] = True
+                    n -= 1
+            except common.ImplHang as e:
+                _HANGS[0] += 1
+                g["hang"], g["done"] = str(e), True
+            except (AssertionError, ValueError) as e:
+                g["visits"].append(["raised", type(e).__name__])
+                g["done"] = True
+    changed = []
+    for idx, tables, impl in kept:
+        now = canon_tables(tables)
+        if now != impl:
+            changed.append((idx, impl, now))
+    restore_default_sources()
+    return convs, changed, gens
+
+
+def eval_fhists(ctx, cases):
+    runs, reqs = [], []
+    for c in cases:
+        convs, changed, gens = run_fhist(c)
+        spans = []
+        for fc, impl in convs:
+            spans.append(len(reqs))
+            reqs += forest_reqs(fc, impl)
+        tspans = []
+        for g in gens:
+            tspans.append(len(reqs))
+            reqs.append({"suite": "c10", "op": "traverse", "tree": g["tree"]})
+        runs.append((c, convs, changed, gens, spans, tspans))
+    out = ctx.lean(reqs)
+    for c, convs, changed, gens, spans, tspans in runs:
+        nontrivial = len(convs) > 1
+        for k, ((fc, impl), a) in enumerate(zip(convs, spans)):
+            judge_forest(ctx, c, fc, impl, out[a:a + 3], label="history, conversion %d of %d (judged against the trees "
+                         "and keys as they are at this call): " % (k + 1, len(convs)), count=False)
+        for idx, was, now in changed:
+            ctx.violation("result-changed-after-return",
+                          "the tables returned by conversion %d of this history changed after they were returned, without "
+                          "the caller touching them: %r -> %r" % (idx + 1, str(was)[:200], str(now)[:200]), c)
+        for g, a in zip(gens, tspans):
+            model = out[a]["visits"]
+            ctx.tag("traverse_generator_" + ("completed" if g["done"] else "abandoned"))
+            if g["hang"]:
+                ctx.violation("did-not-return", "RoutingTree.traverse did not yield: " + g["hang"], c)
+            elif (g["visits"] != model) if g["done"] else (g["visits"] != model[:len(g["visits"])]):
+                # traverse_exact: the model's traversal is exactly the nodes of the tree
+                ctx.mismatch("c10.traverse", "traversal %r, model %r" % (str(g["visits"])[:200], str(model)[:200]), c)
+            nontrivial = True
+        ctx.tag("history", "history_" + ("lazy" if gens else "edits" if any(s[0] == "edit" for s in c["steps"]) else
+                                         "twins" if len(c["forests"]) > 1 else "repeat"))
+        ctx.case(c, nontrivial)
 
 
 # --------------------------------------------------------------------------------------------
@@ -662,12 +1239,17 @@ def expand_load(case):
     """the full (deterministic) content of a machine case from its seed and size class"""
     rng = random.Random(case["seed"])
     n_chips = case["n_chips"]
-    coords = rng.sample([(x, y) for x in range(W) for y in range(H)], n_chips)
+    grid = 16 if case["size"] == "many" else W
+    coords = rng.sample([(x, y) for x in range(grid) for y in range(grid)], n_chips)
     chips, tables = [], []
     for xy in coords:
         kind = rng.choice(["empty", "frag", "frag", "frag", "frag", "frag", "frag", "full"]) if case["size"] != "huge" else \
             rng.choice(["empty", "empty", "frag"])
-        if case["size"] == "huge":
+        if case["size"] in ("over", "many"):
+            # scale: more entries than a router has rows / than 16 bits count; hundreds of chips in one dict
+            kind = "empty"
+            n = case["n"] if case["size"] == "over" else rng.choice([0, 1, 1, 2])
+        elif case["size"] == "huge":
             n = rng.choice([1023, 1023, 1024, 1000, 512])
         elif case["size"] == "big":
             n = rng.choice([64, 100, 255, 256, 257, 300])
@@ -684,11 +1266,11 @@ def expand_load(case):
             "buf": rng.choice([16, 64, 128, 256, 256, 256, 512]),
             "via": "entries" if n_chips == 1 and rng.random() < 0.5 else "tables",
             "clear": rng.random() < 0.3, "wide": case.get("wide", False),
-            "readback": [c for i, c in enumerate(coords) if i == 0 or rng.random() < 0.3]}
+            "readback": [c for i, c in enumerate(coords) if i == 0 or (rng.random() < 0.3 and case["size"] != "many")]}
     # (drawn after everything else so that older payloads expand as before)
     # bystander chips: a router state but no table - load_routing_tables must leave them alone
     full["bystanders"] = []
-    if case["size"] != "huge" and rng.random() < 0.5:
+    if case["size"] not in ("huge", "over", "many") and rng.random() < 0.5:
         rest = [(x, y) for x in range(W) for y in range(H) if (x, y) not in coords]
         for xy in rng.sample(rest, rng.choice([1, 1, 2])):
             full["bystanders"].append({"chip": list(xy), "sys_buf": 0x60000000 + 4 * rng.randrange(0x10000),
@@ -758,6 +1340,168 @@ def caller_edits_readback(t, before, ed):
     return alias
 
 
+class ListSubclass(list):
+    pass
+
+
+_entry_classes = {}
+
+
+def entry_classes():
+    """RoutingTableEntry and an application subclass of it (per rig module object)"""
+    from rig.routing_table import entries as em
+    if _entry_classes.get("base") is not em.RoutingTableEntry:
+        class NotedEntry(em.RoutingTableEntry):
+            """an application subclass (a namedtuple subclass without __slots__: instances have a __dict__)"""
+            def describe(self):
+                return "noted " + str(self)
+        _entry_classes.update(base=em.RoutingTableEntry, classes=[em.RoutingTableEntry, NotedEntry])
+    return _entry_classes["classes"]
+
+
+def small_int_like(v, i):
+    """x, y and app ids as other true ints: bool, IntEnum member (rig passes plain ints and IntEnum members here,
+    never numpy integers)"""
+    if v in (0, 1) and i % 2 == 0:
+        return bool(v)
+    if i % 3 == 1:
+        import enum
+        return enum.IntEnum("Small", {"member_%d" % i: v})["member_%d" % i]
+    return v
+
+
+class Caller(object):
+    """How the caller talks to a MachineController: argument kinds and calling conventions drawn from `ak`
+    (None: the plain form - sets of Routes, lists, a dict, positional ints).  Nothing here changes what is asked
+    for, only how it is written down."""
+
+    def __init__(self, ak):
+        self.rk = random.Random(ak) if ak is not None else None
+        self.used = set()
+
+    def pick(self, name, options):
+        if self.rk is None:
+            return options[0]
+        o = self.rk.choice(options)
+        self.used.add("ak_%s_%s" % (name, o))
+        return o
+
+    def num(self, v):
+        return v if self.rk is None else small_int_like(v, self.rk.randrange(6))
+
+    def entry(self, e, extra_key=0):
+        from rig.routing_table import Routes
+        route, key, mask = e[0], e[1] + extra_key, e[2]
+        rs = [Routes(r) for r in route]
+        form = self.pick("route", ["set", "frozenset", "list_with_duplicate", "tuple", "iterator"])
+        if form == "frozenset":
+            rs = frozenset(rs)
+        elif form == "list_with_duplicate":
+            rs = rs + rs[:1]
+        elif form == "tuple":
+            rs = tuple(rs)
+        elif form == "iterator":
+            rs = iter(rs)
+        else:
+            rs = set(rs)
+        cls = entry_classes()[0 if self.pick("class", ["RoutingTableEntry", "RoutingTableEntry", "subclass"]) != "subclass" else 1]
+        if self.rk is not None and key < (1 << 32) and self.rk.random() < 0.3:
+            key, mask = int_like(key, self.rk.randrange(6)), int_like(mask, self.rk.randrange(6))
+            self.used.add("ak_key_intlike")
+        src = self.pick("sources", ["default", "default", "unknown", "link", "link_and_unknown", "list"])
+        if src == "default":
+            return cls(rs, key, mask) if self.pick("entry_call", ["pos", "kw"]) == "pos" else cls(route=rs, key=key, mask=mask)
+        sources = {"unknown": {None}, "link": {Routes(len(route) % 6)}, "link_and_unknown": {None, Routes(key % 6)},
+                   "list": [Routes(mask % 6), None]}[src]
+        return cls(rs, key, mask, sources) if self.pick("entry_call", ["pos", "kw"]) == "pos" else \
+            cls(sources=sources, mask=mask, key=key, route=rs)
+
+    def table(self, entries, mutable=False):
+        form = self.pick("table", ["list", "list", "list_subclass"] + ([] if mutable else ["tuple"]))
+        return tuple(entries) if form == "tuple" else ListSubclass(entries) if form == "list_subclass" else list(entries)
+
+    def tables_dict(self):
+        return make_dict(self.pick("tables", ["dict", "dict", "ordered", "default", "subclass"]))
+
+    def chip_key(self, xy):
+        return ChipXY(*xy) if self.pick("chip_key", ["tuple", "tuple", "named"]) == "named" else tuple(xy)
+
+    def load_entries(self, mc, es, xy, app):
+        x, y, app = self.num(xy[0]), self.num(xy[1]), self.num(app)
+        conv = self.pick("load_call", ["pos", "pos", "kw", "ctx", "mixed"])
+        if conv == "kw":
+            return mc.load_routing_table_entries(app_id=app, y=y, x=x, entries=es)
+        if conv == "ctx":
+            with mc(x=x, y=y, app_id=app):
+                return mc.load_routing_table_entries(es)
+        if conv == "mixed":
+            with mc(app_id=app, x=(xy[0] + 1) % 4, y=(xy[1] + 2) % 4):      # x, y of the context are overridden
+                return mc.load_routing_table_entries(es, x, y=y)
+        return mc.load_routing_table_entries(es, x, y, app)
+
+    def load_tables(self, mc, tables, app, elsewhere):
+        app = self.num(app)
+        conv = self.pick("tables_call", ["pos", "pos", "kw", "ctx"])
+        if conv == "kw":
+            return mc.load_routing_tables(app_id=app, routing_tables=tables)
+        if conv == "ctx":
+            with mc(app_id=app, x=elsewhere[0], y=elsewhere[1]):            # the chips come from the dict, not from here
+                return mc.load_routing_tables(tables)
+        return mc.load_routing_tables(tables, app)
+
+    def get(self, mc, xy):
+        x, y = self.num(xy[0]), self.num(xy[1])
+        conv = self.pick("get_call", ["pos", "pos", "kw", "ctx"])
+        if conv == "kw":
+            return mc.get_routing_table_entries(y=y, x=x)
+        if conv == "ctx":
+            with mc(x=x, y=y):
+                return mc.get_routing_table_entries()
+        return mc.get_routing_table_entries(x, y)
+
+    def clear(self, mc, xy, app):
+        x, y, app = self.num(xy[0]), self.num(xy[1]), self.num(app)
+        conv = self.pick("clear_call", ["pos", "kw", "ctx"])
+        if conv == "kw":
+            return mc.clear_routing_table_entries(app_id=app, x=x, y=y)
+        if conv == "ctx":
+            with mc(x=x, y=y, app_id=app):
+                return mc.clear_routing_table_entries()
+        return mc.clear_routing_table_entries(x, y, app)
+
+
+def call_outcome(seconds, f):
+    """run one controller call: 'ok' / the documented errors / what else happened"""
+    from harness import common
+    from rig.machine_control import scp_connection as sc
+    from rig.machine_control.machine_controller import SpiNNakerRouterError
+    try:
+        limited(seconds, f)
+        return "ok"
+    except common.ImplHang as e:
+        _HANGS[0] += 1
+        return ["hang", str(e)]
+    except SpiNNakerRouterError as e:
+        return ["RouterError", int(e.count), int(e.chip[0]), int(e.chip[1])]
+    except struct.error:
+        return ["struct.error"]
+    except (sc.TimeoutError, sc.FatalReturnCodeError) as e:
+        return ["scp", repr(e)]
+    except (RecursionError, OverflowError, MemoryError, TypeError, KeyError, AttributeError, IndexError, ValueError) as e:
+        import traceback
+        tb = traceback.extract_tb(e.__traceback__)
+        return ["undocumented", type(e).__name__, str(e)[:100], "%s:%s" % (tb[-1].name, tb[-1].lineno) if tb else ""]
+
+
+def read_back(seconds, f):
+    """one get_routing_table_entries call: ({"ok": canonical} | {"err": ...}, the list handed back or None)"""
+    box = []
+    out = call_outcome(seconds, lambda: box.append(f()))
+    if out == "ok":
+        return {"ok": [canon_dec(d) for d in box[0]]}, box[0]
+    return {"err": out}, None
+
+
 def run_load_impl(case, full, sv):
     from rig.machine_control import scp_connection as sc
     from rig.machine_control.machine_controller import SpiNNakerRouterError
@@ -784,51 +1528,43 @@ def run_load_impl(case, full, sv):
         res["rows0"] = {xy: machine.rows_json(xy) for xy in machine.chips}
         start = len(net.log)
         n_pairs = len(machine.pairs)
-        tables = {}
+        cl = Caller(case.get("ak"))
+        secs = case.get("cpu", 30)
+        tables = cl.tables_dict()
         for xy, es in full["tables"]:
-            tables[tuple(xy)] = [RoutingTableEntry({Routes(r) for r in route}, k + ((1 << 32) if full["wide"] and i == len(es) - 1 else 0), m)
-                                 for i, (route, k, m) in enumerate(es)]
-        try:
-            if full["via"] == "entries":
-                (xy, es), = tables.items()
-                mc.load_routing_table_entries(es, xy[0], xy[1], full["app"])
-            else:
-                mc.load_routing_tables(tables, full["app"])
-            res["outcome"] = "ok"
-        except SpiNNakerRouterError as e:
-            res["outcome"] = ["RouterError", e.count, e.chip[0], e.chip[1]]
-        except struct.error:
-            res["outcome"] = ["struct.error"]
-        except (sc.TimeoutError, sc.FatalReturnCodeError) as e:
-            res["outcome"] = ["scp", repr(e)]
+            tables[cl.chip_key(xy)] = cl.table([cl.entry(e, (1 << 32) if full["wide"] and i == len(es) - 1 else 0)
+                                                for i, e in enumerate(es)])
+        if full["via"] == "entries":
+            (xy, es), = tables.items()
+            res["outcome"] = call_outcome(secs, lambda: cl.load_entries(mc, es, xy, full["app"]))
+        else:
+            res["outcome"] = call_outcome(secs, lambda: cl.load_tables(mc, tables, full["app"], (3, 3)))
         res["trace_load"] = traces(net, start)
         res["rows1"] = {xy: machine.rows_json(xy) for xy in machine.chips}
         # read back every chip
         res["readback"] = {}
         res["trace_get"] = {}
         res["alias"] = []
-        for k, xy in enumerate(full["readback"]):
+        for k, xy in enumerate(full["readback"] if res["outcome"][0] != "hang" else []):
             start = len(net.log)
-            try:
-                t = mc.get_routing_table_entries(xy[0], xy[1])
-                res["readback"][xy] = {"ok": [canon_dec(d) for d in t]}
+            res["readback"][xy], t = read_back(secs, lambda: cl.get(mc, xy))
+            if t is not None:
                 # the caller notes an arrival link on its copy of one entry (before any further read-back)
                 alias = caller_edits_readback(t, res["readback"][xy]["ok"],
                                               {"row": case["seed"] % 997 + k, "add": case["seed"] % 24,
                                                "discard_none": case["seed"] % 3 != 0, "list": None})
                 if alias:
                     res["alias"].append((xy,) + alias)
-            except struct.error:
-                res["readback"][xy] = {"err": ["struct.error"]}
-            except (sc.TimeoutError, sc.FatalReturnCodeError) as e:
-                res["readback"][xy] = {"err": ["scp", repr(e)]}
             res["trace_get"][xy] = traces(net, start)
+        if res["outcome"][0] == "hang":
+            full["readback"], full["clear"] = [], False
         if full["clear"]:
             xy = tuple(full["chips"][0]["chip"])
             start = len(net.log)
-            mc.clear_routing_table_entries(xy[0], xy[1], full["app"])
+            res["clear_outcome"] = call_outcome(secs, lambda: cl.clear(mc, xy, full["app"]))
             res["trace_clear"] = traces(net, start)
             res["rows2"] = machine.rows_json(xy)
+        res["ak_used"] = sorted(cl.used)
     res["pairs"] = machine.pairs[n_pairs:]
     restore_default_sources()
     return res
@@ -978,6 +1714,21 @@ def judge_load(ctx, st, out, count=True):
         if spec_final.get(xy, []) != want:
             raise Infra("simulated router state differs from the Lean specification after the same commands "
                         "(chip %r, case %r)" % (xy, case))
+    for t in res.get("ak_used", []):
+        ctx.tag(t)
+    flt = res.get("fault")
+    out_kind = res["outcome"] if isinstance(res["outcome"], str) else res["outcome"][0]
+    if flt and flt["hit"]:
+        ctx.tag("network_fault_%s_%s" % (flt["kind"], "survived" if out_kind in ("ok", "RouterError") else "call_failed"))
+        if out_kind == "scp":
+            # what a call cut short by the network leaves behind is not this property's business (C06/C07): the
+            # simulator was checked against the specification above, and the later steps of the session are judged
+            # from the routers as they now are
+            if count:
+                ctx.case(case, False)
+            return False
+    elif flt:
+        ctx.tag("network_fault_not_reached")
     # ---- controller model correspondence --------------------------------------------------------
     lm = out[1]
     if lm["trace"] != res["trace_load"]:
@@ -1027,7 +1778,10 @@ def judge_load(ctx, st, out, count=True):
     def violation(key, what):
         reported[0] = True
         ctx.violation(key, label + what, case)
-    if isinstance(res["outcome"], list) and res["outcome"][0] != "RouterError":
+    if out_kind == "hang":
+        # the model's run always ends (load_exact / load_tables_spec give its outcome)
+        violation("did-not-return", "the load did not return: %s" % (res["outcome"][1],))
+    elif isinstance(res["outcome"], list) and res["outcome"][0] != "RouterError":
         violation("unexpected-error", "loading raised %r" % (res["outcome"],))
     any_failed = False
     for (xy, es) in full["tables"]:
@@ -1078,7 +1832,8 @@ def judge_load(ctx, st, out, count=True):
     for xy in rb_list:
         rb = res["readback"][xy]
         if "ok" not in rb:
-            violation("readback-error", "get_routing_table_entries raised %r" % (rb["err"],))
+            violation("did-not-return" if rb["err"][0] == "hang" else "readback-error",
+                      "get_routing_table_entries raised %r" % (rb["err"],))
         elif out[st["rb_idx"][xy]] is not True:
             violation("readback-not-exact", "get_routing_table_entries of chip %r does not return the router's rows "
                       "(1024 items; key, mask, route set, app, core; None for unused)" % (xy,))
@@ -1197,7 +1952,13 @@ def apply_mutation(lst, mu, mk):
 
 def gen_session(rng):
     n_chips = rng.choice([2, 2, 3, 3, 4])
-    coords = rng.sample([(x, y) for x in range(W) for y in range(H)], n_chips)
+    if rng.random() < 0.7:
+        coords = rng.sample([(x, y) for x in range(W) for y in range(H)], n_chips)
+    else:
+        # anywhere in the 256 x 256 coordinate space ((255, 255) is the alias of the root chip)
+        far = [(0, 0), (255, 0), (0, 255), (254, 255), (255, 254), (128, 127), (17, 200), (1, 0), (0, 1)] + \
+              [(rng.randrange(256), rng.randrange(255)) for _ in range(4)]
+        coords = rng.sample(sorted(set(far)), n_chips)
     bufs = rng.sample(range(0x10000), n_chips)
     copies = rng.sample(range(0x1000), n_chips)
     chips = []
@@ -1208,6 +1969,7 @@ def gen_session(rng):
                                            else ["first", "last", "rand"]),
                       "pseed": rng.randrange(1 << 30), "zero": rng.random() < 0.5})
     content = {}          # list id -> current plain content (generator-side mirror)
+    dicts = {}            # dict id -> {chip: list id} (generator-side mirror of the caller's dict objects)
     steps = []
     last = None           # id of the list object loaded by the previous step
     n_lists = 0
@@ -1259,15 +2021,43 @@ def gen_session(rng):
         targets = rng.sample(coords, min(n_chips, rng.choice([1, 1, 2, 3])) if rng.random() < 0.35 else 1)
         rb = [list(xy) for xy in targets if rng.random() < 0.35] + \
              [list(xy) for xy in coords if xy not in targets and rng.random() < 0.1]
-        if len(targets) == 1 and rng.random() < 0.75:
+        if len(targets) == 1 and rng.random() < 0.7:
             step = {"mut": mut, "op": "load", "list": lid, "chip": list(targets[0]), "app": app, "readback": rb}
+        elif dicts and rng.random() < 0.5:
+            # the dict object of an earlier load_routing_tables call again, edited in place by the caller
+            did = rng.choice(sorted(dicts))
+            d = dicts[did]
+            for _ in range(rng.choice([0, 1, 1, 2])):
+                xy = rng.choice(coords)
+                if tuple(xy) in d and rng.random() < 0.4:
+                    mut.append({"m": "ddel", "dict": did, "chip": list(xy)})
+                    del d[tuple(xy)]
+                else:
+                    other = lid if rng.random() < 0.6 else rng.choice(sorted(content))
+                    mut.append({"m": "dset", "dict": did, "chip": list(xy), "list": other})
+                    d[tuple(xy)] = other
+            step = {"mut": mut, "op": "tables", "dict": did, "app": app}
+            step["readback"] = [list(xy) for xy in d if rng.random() < 0.35] + \
+                               [list(xy) for xy in coords if xy not in d and rng.random() < 0.1]
         else:
             # a dict of tables: chips share the list object, or some get another existing list
             tabs = []
-            for xy in targets:
+            for xy in (targets if rng.random() > 0.04 else []):          # (rarely: an empty dict)
                 other = rng.choice(sorted(content))
                 tabs.append([list(xy), lid if rng.random() < 0.7 else other])
-            step = {"mut": mut, "op": "tables", "tables": tabs, "app": app, "readback": rb}
+            did = "d%d" % len(dicts)
+            dicts[did] = collections.OrderedDict((tuple(xy), l) for xy, l in tabs)
+            mut.append({"m": "dnew", "dict": did, "tables": tabs})
+            step = {"mut": mut, "op": "tables", "dict": did, "app": app, "readback": rb if tabs else []}
+        rb = step["readback"]
+        if rng.random() < 0.5:
+            step["ak"] = rng.randrange(1 << 30)          # argument kinds and calling conventions of this step
+        if rng.random() < 0.3:
+            # the network fails once during the load: the n-th datagram of this step is lost (request or reply), answered
+            # with a retryable or a fatal return code, or it and all its retransmissions are lost
+            step["fault"] = {"at": rng.choice([0, 0, 1, 1, 2, 2, 3, 3, 4, 5]), "kind": rng.choice(["lost_request", "lost_reply", "lost_reply",
+                                                                          "rc_retry", "rc_fatal", "dead"]),
+                             "code": rng.choice([0x81, 0x83, 0x84, 0x87, 0x8e])}
         # which of the two controllers of the session loads / reads back; what the caller then does, in place, with
         # the read-back it was handed: the sources set of one returned entry, the returned list itself
         step["ctl"] = rng.choice([0, 0, 0, 1])
@@ -1278,49 +2068,96 @@ def gen_session(rng):
                            for xy in rb if rng.random() < 0.6]
         steps.append(step)
         last = lid
-    return {"kind": "session", "buf": rng.choice([64, 128, 256, 256]), "window": rng.choice([1, 1, 2, 8]),
-            "chips": chips, "steps": steps}
+    case = {"kind": "session", "buf": rng.choice([64, 128, 256, 256]), "window": rng.choice([1, 1, 2, 8]),
+            "n_tries": rng.choice([2, 5, 5]), "timeout": rng.choice([0.5, 1.0, 4.0]), "chips": chips, "steps": steps}
+    if rng.random() < 0.5:
+        case["ak"] = rng.randrange(1 << 30)          # how the caller builds its entries and list objects
+    return case
 
 
 def run_session_impl(case, sv):
-    """one controller, one machine, all steps; returns [(full, res, info)] per step in the shape prepare_from expects"""
-    from rig.machine_control import scp_connection as sc
-    from rig.machine_control.machine_controller import SpiNNakerRouterError
-    from rig.routing_table import RoutingTableEntry, Routes
+    """two controllers, one machine, all steps; returns ([(full, res, info)] per step in the shape prepare_from expects,
+    kept read-backs that changed after they were returned)"""
+    fresh_rig()
     chips = [dict(c, rows=gen_rows(random.Random(c["rows_seed"]), c["rows_kind"])) for c in case["chips"]]
     desc = {tuple(c["chip"]): c for c in chips}
     machine = RouterMachine(chips, case["buf"], sv)
-    net = simnet.Net(machine.handle, lambda k, data: [(1, "ok")])
+    fs = {"fault": None, "n": 0, "dead": None, "hit": False}
 
-    def mk(e):
-        return RoutingTableEntry({Routes(r) for r in e[0]}, e[1], e[2])
+    def script(k, data):
+        f = fs["fault"]
+        q = simnet.parse_scp(data)
+        if f is None or q["cmd"] == 0:
+            return [(1, "ok")]
+        if fs["dead"] is not None:
+            return [] if q["seq"] == fs["dead"] else [(1, "ok")]
+        j = fs["n"]
+        fs["n"] += 1
+        if j != f["at"]:
+            return [(1, "ok")]
+        fs["hit"] = True
+        if f["kind"] == "lost_reply":
+            machine.handle(data)                  # executed by the chip, the reply never arrives
+            machine.pairs[-1]["lost"] = True
+        elif f["kind"] in ("rc_retry", "rc_fatal"):
+            # the chip refuses the datagram (not executed): a retryable code (checksum / busy) or a fatal one
+            rc = (0x82 if f["code"] % 2 else 0x8d) if f["kind"] == "rc_retry" else f["code"]
+            reply = simnet.make_reply(data, rc)
+            did = net.next_id
+            net.next_id += 1
+            net.dgram[did] = dict(rc=rc, seq=q["seq"], origin_send=k, bytes=reply)
+            net.queue.append([net.now + 1, net.order, did, reply])
+            net.order += 1
+        elif f["kind"] == "dead":
+            fs["dead"] = q["seq"]
+        return []
+    net = simnet.Net(machine.handle, script)
+    maker = Caller(case.get("ak"))
     objs, content = {}, {}        # the caller's list objects / the same content as plain data
+    dobjs, dcontent = {}, {}      # the caller's dict objects / {chip: list id}
     loaded = {}                   # list id -> content when that object was last handed to a load
-    out = []
+    out, kept = [], []
     longest = 1
     with simnet.installed(net):
-        mcs = [simmachine.make_controller(net), simmachine.make_controller(net)]
+        mcs = [simmachine.make_controller(net, n_tries=case.get("n_tries", 5), timeout=case.get("timeout", 4.0)),
+               simmachine.make_controller(net, n_tries=case.get("n_tries", 5), timeout=case.get("timeout", 4.0))]
         for mc in mcs:
             mc._window_size = case.get("window", 1)
             _ = mc.scp_data_length
         for step in case["steps"]:
             mc = mcs[step.get("ctl", 0)]
+            cl = Caller(step.get("ak"))
             for mu in step["mut"]:
                 if mu["m"] == "new":
-                    objs[mu["list"]] = [mk(e) for e in mu["entries"]]
+                    objs[mu["list"]] = maker.table([maker.entry(e) for e in mu["entries"]], mutable=True)
                     content[mu["list"]] = [list(e) for e in mu["entries"]]
                     loaded.pop(mu["list"], None)
+                elif mu["m"] == "dnew":
+                    dobjs[mu["dict"]] = cl.tables_dict()
+                    dcontent[mu["dict"]] = collections.OrderedDict()
+                    for xy, lid in mu["tables"]:
+                        dobjs[mu["dict"]][cl.chip_key(xy)] = objs[lid]
+                        dcontent[mu["dict"]][tuple(xy)] = lid
+                elif mu["m"] == "dset":
+                    dobjs[mu["dict"]][tuple(mu["chip"])] = objs[mu["list"]]
+                    dcontent[mu["dict"]][tuple(mu["chip"])] = mu["list"]
+                elif mu["m"] == "ddel":
+                    del dobjs[mu["dict"]][tuple(mu["chip"])]
+                    del dcontent[mu["dict"]][tuple(mu["chip"])]
                 else:
-                    apply_mutation(objs[mu["list"]], mu, mk)
+                    apply_mutation(objs[mu["list"]], mu, maker.entry)
                     apply_mutation(content[mu["list"]], mu, lambda e: list(e))
             if step["op"] == "load":
                 tabs = [[step["chip"], step["list"]]]
+            elif "dict" in step:
+                tabs = [[list(xy), lid] for xy, lid in dcontent[step["dict"]].items()]
             else:
                 tabs = step["tables"]
             ids = sorted({lid for _, lid in tabs})
             info = {"reused_changed": any(lid in loaded and loaded[lid] != content[lid] for lid in ids),
                     "reused_same": any(lid in loaded and loaded[lid] == content[lid] for lid in ids),
-                    "shared": len(tabs) > len(ids)}
+                    "shared": len(tabs) > len(ids), "dict_reused": "dict" in step and not any(
+                        mu["m"] == "dnew" for mu in step["mut"]), "empty_dict": step["op"] == "tables" and not tabs}
             longest = max([longest] + [len(v) for v in content.values()])
             targets = [tuple(xy) for xy, _ in tabs]
             full = {"chips": [desc[xy] for xy in targets],
@@ -1335,45 +2172,56 @@ def run_session_impl(case, sv):
                            for xy in targets}
             start = len(net.log)
             n_pairs = len(machine.pairs)
-            try:
-                if step["op"] == "load":
-                    xy = targets[0]
-                    mc.load_routing_table_entries(objs[step["list"]], xy[0], xy[1], step["app"])
-                else:
-                    mc.load_routing_tables({tuple(xy): objs[lid] for xy, lid in tabs}, step["app"])
-                res["outcome"] = "ok"
-            except SpiNNakerRouterError as e:
-                res["outcome"] = ["RouterError", e.count, e.chip[0], e.chip[1]]
-            except struct.error:
-                res["outcome"] = ["struct.error"]
-            except (sc.TimeoutError, sc.FatalReturnCodeError) as e:
-                res["outcome"] = ["scp", repr(e)]
+            fs.update(fault=step.get("fault"), n=0, dead=None, hit=False)
+            if step["op"] == "load":
+                res["outcome"] = call_outcome(30, lambda: cl.load_entries(mc, objs[step["list"]], targets[0], step["app"]))
+            elif "dict" in step:
+                res["outcome"] = call_outcome(30, lambda: cl.load_tables(mc, dobjs[step["dict"]], step["app"],
+                                                                         tuple(case["chips"][0]["chip"])))
+            else:
+                tables = cl.tables_dict()
+                for xy, lid in tabs:
+                    tables[cl.chip_key(xy)] = objs[lid]
+                res["outcome"] = call_outcome(30, lambda: cl.load_tables(mc, tables, step["app"],
+                                                                         tuple(case["chips"][0]["chip"])))
+            res["fault"] = dict(step["fault"], hit=fs["hit"]) if step.get("fault") else None
+            fs.update(fault=None, dead=None)
             for lid in ids:
                 loaded[lid] = [list(e) for e in content[lid]]
             res["trace_load"] = traces(net, start)
             res["rows1"] = {xy: machine.rows_json(xy) for xy in machine.chips}
             res["readback"], res["trace_get"], res["alias"] = {}, {}, []
             edits = {tuple(e["chip"]): e for e in step.get("rb_edit", [])}
+            hung = res["outcome"][0] == "hang"
+            if hung:
+                full["readback"] = []
             for xy in full["readback"]:
                 start = len(net.log)
-                try:
-                    t = mcs[step.get("rb_ctl", 0)].get_routing_table_entries(xy[0], xy[1])
-                    before = [canon_dec(d) for d in t]
-                    res["readback"][xy] = {"ok": before}
+                res["readback"][xy], t = read_back(30, lambda: cl.get(mcs[step.get("rb_ctl", 0)], xy))
+                if t is not None:
                     if xy in edits:
                         # the caller edits ITS copy of one entry; all other entries it holds must stay what they were
-                        alias = caller_edits_readback(t, before, edits[xy])
+                        alias = caller_edits_readback(t, res["readback"][xy]["ok"], edits[xy])
                         if alias:
                             res["alias"].append((xy,) + alias)
-                except struct.error:
-                    res["readback"][xy] = {"err": ["struct.error"]}
-                except (sc.TimeoutError, sc.FatalReturnCodeError) as e:
-                    res["readback"][xy] = {"err": ["scp", repr(e)]}
+                    else:
+                        kept.append((len(out), xy, t, res["readback"][xy]["ok"]))     # kept untouched to the end
+                elif res["readback"][xy]["err"][0] == "hang":
+                    hung = True
                 res["trace_get"][xy] = traces(net, start)
+            res["ak_used"] = sorted(cl.used | maker.used)
             res["pairs"] = machine.pairs[n_pairs:]
             out.append((full, res, info))
+            if hung:
+                break               # the controller's state after a call that did not return is anybody's guess
+    changed = []
+    for k, xy, t, was in kept:
+        now = [canon_dec(d) for d in t]
+        if now != was:
+            j = next(i for i, (a, b) in enumerate(zip(was, now)) if a != b) if len(now) == len(was) else -1
+            changed.append((k, xy, j, was[j] if j >= 0 else len(was), now[j] if j >= 0 else len(now)))
     restore_default_sources()
-    return out
+    return out, changed
 
 
 def eval_sessions(ctx, cases, batch=12):
@@ -1382,7 +2230,8 @@ def eval_sessions(ctx, cases, batch=12):
         items, reqs = [], []
         for case in cases[i:i + batch]:
             steps = []
-            for k, (full, res, info) in enumerate(run_session_impl(case, sv)):
+            ran, changed = run_session_impl(case, sv)
+            for k, (full, res, info) in enumerate(ran):
                 what = "load_routing_table_entries" if full["via"] == "entries" else "load_routing_tables"
                 # (the controller model of the read-back is compared in the single-load stream; here the read-back is
                 # judged by the Lean oracle ReadbackSpec and the simulator replay only)
@@ -1390,10 +2239,14 @@ def eval_sessions(ctx, cases, batch=12):
                                       "it is at this call): " % (k + 1, len(case["steps"]), what))
                 steps.append((st, len(reqs), len(reqs) + len(rq), info))
                 reqs += rq
-            items.append((case, steps))
+            items.append((case, steps, changed))
         out = ctx.lean(reqs)
-        for case, steps in items:
+        for case, steps, changed in items:
             nontrivial = False
+            for k, xy, j, was, now in changed:
+                ctx.violation("result-changed-after-return",
+                              "the table read back from chip %r in step %d, which the caller kept untouched, changed after "
+                              "it was returned: item %d was %r, is now %r" % (xy, k + 1, j, was, now), case)
             for k, (st, a, b, info) in enumerate(steps):
                 judge_load(ctx, st, out[a:b], count=False)
                 ctx.tag("session_step")
@@ -1408,6 +2261,10 @@ def eval_sessions(ctx, cases, batch=12):
                     ctx.tag("session_list_reused_unchanged")
                 if info["shared"]:
                     ctx.tag("session_chips_share_list_object")
+                if info.get("dict_reused"):
+                    ctx.tag("session_dict_object_reused_after_edit")
+                if info.get("empty_dict"):
+                    ctx.tag("session_empty_dict")
             ctx.tag("session")
             ctx.case(case, nontrivial)
 
@@ -1422,7 +2279,7 @@ def gen_codec(rng, n):
                 bs[7] = 0xff
             if rng.random() < 0.1:
                 bs = bs[:rng.choice([0, 1, 15])] if rng.random() < 0.5 else bs + [1]
-            cases.append({"kind": "unpack", "bytes": bs})
+            cases.append({"kind": "unpack", "bytes": bs, "bk": rng.choice(["bytes", "bytes", "bytearray", "memoryview"])})
         else:
             e = gen_entries(rng, 1)[0]
             i = rng.choice([0, 1, 255, 256, 1023, rng.randrange(1024)])
@@ -1441,6 +2298,7 @@ def gen_codec(rng, n):
 def eval_codec(ctx, cases):
     """16-byte record: the pack string and unpack_routing_table_entry on arbitrary bytes against the model,
     plus the round trip on the implementation"""
+    from harness import common
     from rig.machine_control import machine_controller as mcm
     from rig.machine_control import consts
     reqs = []
@@ -1451,10 +2309,18 @@ def eval_codec(ctx, cases):
             reqs.append({"suite": "c10", "op": "pack", "i": c["i"], "entry": c["entry"]})
     for c, r in zip(cases, ctx.lean(reqs)):
         if c["kind"] == "unpack":
+            bk = c.get("bk", "bytes")
+            packed = bytearray(c["bytes"]) if bk == "bytearray" else memoryview(bytes(c["bytes"])) if bk == "memoryview" \
+                else bytes(c["bytes"])
+            ctx.tag("unpack_from_" + bk)
             try:
-                impl = {"ok": canon_dec(mcm.unpack_routing_table_entry(bytes(c["bytes"])))}
+                impl = {"ok": canon_dec(limited(2, lambda: mcm.unpack_routing_table_entry(packed)))}
             except struct.error:
                 impl = {"err": "struct.error"}
+            except common.ImplHang as e:
+                _HANGS[0] += 1
+                ctx.violation("did-not-return", "unpack_routing_table_entry did not return: %s" % (e,), c)
+                continue
             ctx.tag("unpack_" + ("err" if "err" in impl else "unused" if impl["ok"] is None else "used"))
             if impl != r:
                 ctx.mismatch("c10.unpack", "impl=%r model=%r" % (impl, r), c)
@@ -1506,6 +2372,8 @@ def gen_load_cases(ctx, n, lost=False):
              "window": rng.choice([1, 1, 2, 8]), "wide": rng.random() < 0.02 and not lost}
         if lost:
             c["lost"] = True
+        if rng.random() < 0.5:
+            c["ak"] = rng.randrange(1 << 30)        # argument kinds and calling conventions (class Caller)
         cases.append(c)
     return cases
 
@@ -1520,15 +2388,36 @@ def run(ctx):
         "their replies (general loss and reordering are C06/C07)"]
     mult = 4 if ctx.extended else 1
     n_forest = ctx.scale(1000, 30000) * mult
-    n_load = ctx.scale(120, 1800) * mult
+    n_load = ctx.scale(120, 1350) * mult
     n_codec = ctx.scale(2000, 40000) * mult
     forests = [gen_forest(ctx.rng) for _ in range(n_forest)]
     for i in range(0, len(forests), 2000):
         eval_forests(ctx, forests[i:i + 2000])
+    fh = [gen_fhist(ctx.rng) for _ in range(ctx.scale(30, 500) * mult)]
+    for i in range(0, len(fh), 500):
+        eval_fhists(ctx, fh[i:i + 500])
     eval_codec(ctx, gen_codec(ctx.rng, n_codec))
     eval_loads(ctx, gen_load_cases(ctx, n_load))
     eval_loads(ctx, gen_load_cases(ctx, ctx.scale(30, 300) * mult, lost=True))
-    eval_sessions(ctx, [gen_session(ctx.rng) for _ in range(ctx.scale(24, 400) * mult)])
+    eval_sessions(ctx, [gen_session(ctx.rng) for _ in range(ctx.scale(24, 300) * mult)])
+    # scale: a handful of cases far beyond the usual size (CPU limits raised accordingly)
+    sc = [{"kind": "forest_scale", "shape": "chain", "n": ctx.scale(1200, 3000)},
+          {"kind": "forest_scale", "shape": "star", "n": ctx.scale(600, 5000), "ak": {
+              "ids": "str", "routes": "ordered", "net_keys": "default", "km": "named", "num": "intlike", "conv": "kw"}},
+          {"kind": "forest_scale", "shape": "nets", "n": ctx.scale(300, 2000)}]
+    eval_scale_forests(ctx, sc)
+    ls = [{"kind": "load", "seed": ctx.rng.randrange(1 << 40), "size": "over", "n": 1025, "n_chips": 1, "window": 1,
+           "wide": False, "cpu": 300},
+          {"kind": "load", "seed": ctx.rng.randrange(1 << 40), "size": "many", "n_chips": ctx.scale(150, 256), "window": 8,
+           "wide": False, "cpu": 300, "ak": ctx.rng.randrange(1 << 30)}]
+    if not ctx.quick:
+        ls.append({"kind": "load", "seed": ctx.rng.randrange(1 << 40), "size": "over", "n": 65537, "n_chips": 1,
+                   "window": 1, "wide": False, "cpu": 300})
+        ls.append({"kind": "load", "seed": ctx.rng.randrange(1 << 40), "size": "over", "n": 65536, "n_chips": 1,
+                   "window": 2, "wide": False, "cpu": 300, "ak": 7})
+    for c in ls:
+        ctx.tag("scale_load_%s_%s" % (c["size"], c.get("n", c["n_chips"])))
+    eval_loads(ctx, ls, batch=1)
 
 
 def replay(ctx, payload):
@@ -1536,6 +2425,10 @@ def replay(ctx, payload):
     c = payload["case"]
     if c.get("kind") == "forest":
         eval_forests(ctx, [c])
+    elif c.get("kind") == "fhist":
+        eval_fhists(ctx, [c])
+    elif c.get("kind") == "forest_scale":
+        eval_scale_forests(ctx, [c])
     elif c.get("kind") == "load":
         eval_loads(ctx, [c])
     elif c.get("kind") == "session":
